@@ -176,7 +176,7 @@ pub fn run(cx: &mut Cx) {
     let mut cache: Option<Compiled> = None;
 
     // (a) random V x V pairs
-    let n = cx.per_shard(40, 4_000, 60_000, 600_000);
+    let n = cx.per_shard(40, 6_000, 320_000, 1_600_000);
     let mut r = cx.stream("random-pairs");
     for _ in 0..n {
         let a = gv::v(&mut r);
@@ -191,7 +191,7 @@ pub fn run(cx: &mut Cx) {
     }
 
     // (b) v x NN(v), both orders; chains of neighbours reach deep positions.
-    let n = cx.per_shard(40, 4_000, 60_000, 600_000);
+    let n = cx.per_shard(40, 6_000, 320_000, 1_600_000);
     let mut r = cx.stream("neighbours");
     for _ in 0..n / 2 {
         let a = gv::v(&mut r);
